@@ -25,14 +25,15 @@ import vlib
 PID = "C19"
 PKG = "yv-c19"
 
-# theme -> (MaxFd, MaxH quick, MaxH thorough); sequences are MaxH + 2 calls long
+# theme -> (MaxFd, MaxH quick, MaxH thorough) as written in spec/MC_Kernel_<theme>_<tier>.cfg;
+# sequences are up to MaxH + 1 calls long
 THEMES = {
-    "rw": (4, 1, 2),
-    "fd": (5, 1, 2),
-    "path": (4, 0, 1),
-    "mode": (4, 1, 2),
-    "pipe": (5, 2, 3),
-    "sig": (3, 2, 3),
+    "rw": (4, 3, 4),
+    "fd": (5, 3, 4),
+    "path": (4, 2, 3),
+    "mode": (4, 3, 4),
+    "pipe": (5, 4, 5),
+    "sig": (3, 4, 5),
 }
 
 TARGET = {"reg": "regular", "dir": "directory", "lnk": "symlink", "fifo": "fifo", "missing": "missing"}
@@ -63,6 +64,8 @@ def _via(prefix):
             via.add("opendir")
         if c["op"] == "chdir" and set(c.get("path", [])) & {".", ".."}:
             via.add("chdir-dots")
+        if c["op"] == "write":
+            via.add("write")
     return via
 
 
@@ -81,6 +84,12 @@ def classify(sys_, call, target, exp, obs, via):
         return "creat-missing-parent"
     if op == "write" and target in ("pipe", "fifo") and e == "killed:PIPE" and o == "err:EPIPE":
         return "no-sigpipe"
+    # ... and its later consequences: SIGPIPE is neither caught nor pending
+    if "write" in via and op == "caught" and e == "sigs" and o == "sigs" \
+            and set(exp.get("d", [])) - set(obs.get("d", [])) == {"PIPE"} and set(obs.get("d", [])) <= set(exp.get("d", [])):
+        return "no-sigpipe"
+    if "write" in via and op == "sigmask" and e == "killed:PIPE" and o == "sigs":
+        return "no-sigpipe"
     if op == "getcwd" and via & {"chdir-dots", "symlink"} and e == "cwd" and o == "cwd":
         return "getcwd-not-canonical"
     if "symlink" in via:
@@ -97,27 +106,6 @@ def call_key(sys_, call, target, exp, obs, prefix):
     if call["op"] == "open":
         key["access"] = {"R": "read", "W": "write", "RW": "readwrite"}.get(call.get("acc"), "?")
     return key
-
-
-def _write_cfg(name, theme, maxfd, maxh):
-    path = os.path.join(vlib.SPEC, name)
-    with open(path, "w") as f:
-        f.write(f"""SPECIFICATION Spec
-CONSTANTS
-  Theme = "{theme}"
-  MaxFd = {maxfd}
-  MaxLen = 6
-  MaxPipe = 2
-  MaxH = {maxh}
-VIEW view
-CONSTRAINT Bounded
-INVARIANT TypeOK
-INVARIANT NoDanglingOfd
-INVARIANT TreeClosed
-INVARIANT NoIgnoredPending
-INVARIANT EmitState
-""")
-    return name
 
 
 class Agg:
@@ -150,8 +138,7 @@ def part_a_replay(tier, wd, agg, cov, header_holder):
     shards = 8
     for theme, (maxfd, hq, ht) in THEMES.items():
         maxh = hq if tier == "quick" else ht
-        cfg = f"MC_Kernel_{theme}.cfg"
-        _write_cfg(cfg, theme, maxfd, maxh)
+        cfg = f"MC_Kernel_{theme}_{tier}.cfg"       # holds MaxFd = maxfd, MaxH = maxh
         fan = os.path.join(wd, f"fan_{theme}.ndjson")
         r = vlib.tlc("Kernel", cfg, workers=8, json_out=fan, timeout=1500)
         vlib.tlc_must_pass(r, f"model check {cfg}")
@@ -218,7 +205,7 @@ def part_a_replay(tier, wd, agg, cov, header_holder):
                             {"level": "call", "tree": header_holder["tree"], "seq": seq, "sys": "both",
                              "virtual": v["virtual"], "real": v["real"]})
             os.remove(rp)
-        cov["themes"][theme] = dict(tstats, tlc_distinct=r.distinct, tlc_generated=r.generated, max_calls=maxh + 2)
+        cov["themes"][theme] = dict(tstats, tlc_distinct=r.distinct, tlc_generated=r.generated, max_calls=maxh + 1)
         cov["cases"] += tstats.get("cases", 0)
         cov["undef"] += tstats.get("undef", 0)
         vlib.log(f"[p2] {theme}: {tstats.get('cases', 0)} (state, call) cases x 2 systems in {time.time() - t0:.1f}s; "
@@ -282,7 +269,7 @@ def part_a_random(tier, wd, agg, cov, header_holder):
     tree_path = os.path.join(wd, "tree.json")
     with open(tree_path, "w") as f:
         json.dump(header_holder["tree"], f)
-    nseq, length = (640, 24) if tier == "quick" else (24000, 30)
+    nseq, length = (640, 24) if tier == "quick" else (8000, 30)
     shards = 8
     t0 = time.time()
 
@@ -318,16 +305,132 @@ def part_a_random(tier, wd, agg, cov, header_holder):
              f"{undef} without prediction")
 
 
+# ---------------------------------------------------------------------------
+# part (b): scripts
+# ---------------------------------------------------------------------------
+import re
+
+_SHAPES = [
+    ("empty-path", re.compile(r'[<>]\s*""')),
+    ("symlink-in-path", re.compile(r'[<>]\s*(l|ld|lx)(/\S*)?(\s|$|\))')),
+    ("creat-missing-parent", re.compile(r'>\s*n/x')),
+    ("open-directory-for-writing", re.compile(r'>\s*d(\s|$|\))')),
+]
+_FORKS = re.compile(r'^\(|\||\$\(|&')
+
+
+def script_shape(steps):
+    """Shape of the first step of the script that has a recognised shape: a
+    redirection to the empty name / through a symbolic link / into a missing
+    directory / to a directory, a step that forks after the shell changed its
+    working directory or umask (or that prints the umask in a child), a step
+    that names a descriptor number after a pathname expansion."""
+    moved = globbed = in_d = False
+    for t in steps:
+        for name, rx in _SHAPES:
+            if rx.search(t):
+                return name
+        if in_d and re.search(r'>\s*d/n', t):
+            return "creat-missing-parent"
+        if _FORKS.search(t) and (moved or re.search(r'\(.*\bumask\b', t)):
+            return "fork-after-cd-or-umask"
+        if globbed and re.search(r'&[34]|exec [34]', t):
+            return "descriptor-after-glob"
+        if re.match(r'^(cd d|umask 0\d+)$', t):
+            moved = True
+        if t == "cd d":
+            in_d = True
+        if t == "cd ..":
+            in_d = False
+        if "echo ? l?" in t:
+            globbed = True
+    return ""
+
+
+def part_b(tier, wd, agg, cov):
+    maxh, every = (1, 1) if tier == "quick" else (2, 4)
+    cfg = f"MC_KernelScript_{tier}.cfg"            # holds MaxH = maxh
+    fan = os.path.join(wd, "scripts.ndjson")
+    r = vlib.tlc("KernelScript", cfg, workers=8, json_out=fan, timeout=1500)
+    vlib.tlc_must_pass(r, f"model check {cfg}")
+    vlib.log(f"[tlc] {cfg}: {r.distinct} distinct states, {r.generated} generated, depth {r.depth}, {r.wall:.1f}s")
+    cov["states"] += r.distinct
+    cov["transitions"] += r.generated
+    shards = 8
+    header = None
+    outs = [open(os.path.join(wd, f"scripts.{k}"), "w") for k in range(shards)]
+    n = 0
+    with open(fan) as f:
+        for line in f:
+            if header is None and '"tree"' in line:
+                v = json.loads(line)
+                header = {"h": [], "fan": [], "tree": v["tree"]}
+            outs[n % shards].write(line)
+            n += 1
+    for o in outs:
+        o.close()
+    os.remove(fan)
+    if header is None:
+        raise vlib.ToolError("no tree line in the output of " + cfg)
+    t0 = time.time()
+
+    def one(k):
+        inp = os.path.join(wd, f"scripts.{k}")
+        with open(inp) as f:
+            body = f.read()
+        with open(inp, "w") as f:
+            f.write(json.dumps(header) + "\n" + body)
+        out = os.path.join(wd, f"srep.{k}")
+        vlib.run_harness(PKG, ["scripts", "--in", inp, "--out", out, "--every", every, "--offset", k % every],
+                         timeout=3000)
+        os.remove(inp)
+        return out
+
+    with ThreadPoolExecutor(max_workers=shards) as ex:
+        reports = list(ex.map(one, range(shards)))
+    st = {"scripts": 0, "unpredicted": 0, "deviating": 0}
+    for rp in reports:
+        for v in vlib.read_ndjson(rp):
+            if v["kind"] == "stats":
+                for fld in st:
+                    st[fld] += v.get(fld, 0)
+            elif v["kind"] == "sample" and len(cov["script_samples"]) < 3:
+                cov["script_samples"].append({"script": v["steps"], "stdout": v["sim"]["stdout"],
+                                              "status": v["sim"]["status"], "files": v["sim"]["files"]})
+            elif v["kind"] == "deviation":
+                dev = v["dev"]
+                who = "sim" if "sim_vs_model" in dev else "real" if "real_vs_model" in dev else "sim-vs-real"
+                if "sim_vs_model" in dev and "real_vs_model" in dev:
+                    who = "both"
+                shape = script_shape(v["steps"])
+                key = {"level": "script", "shape": shape, "who": who}
+                if not shape:
+                    key["step"] = v["steps"][-1]
+                    key["fields"] = ",".join(sorted(set(sum(dev.values(), []))))
+                agg.add(key, f"script behaves differently ({who}): {' ; '.join(v['steps'])}",
+                        {"level": "script", "tree": header["tree"], "steps": v["steps"], "pred": v["pred"], "dev": dev,
+                         "sim": v["sim"], "real": v["real"]})
+        os.remove(rp)
+    cov["scripts"] = dict(st, tlc_distinct=r.distinct, tlc_generated=r.generated, max_steps=maxh + 1, sampled_every=every,
+                          wall_s=round(time.time() - t0, 1))
+    vlib.log(f"[b] scripts: {st['scripts']} scripts of <= {maxh + 1} steps on both systems in {time.time() - t0:.1f}s; "
+             f"{st['deviating']} deviating, {st['unpredicted']} compared only with each other (no model prediction)")
+
+
 def run(tier):
     t0 = time.time()
     wd = vlib.workdir(PID)
     rep = vlib.Reporter(PID)
     agg = Agg()
     cov = {"states": 0, "transitions": 0, "cases": 0, "undef": 0, "per_op": {}, "per_result": {}, "themes": {},
-           "samples": []}
+           "samples": [], "script_samples": []}
     holder = {}
-    part_a_replay(tier, wd, agg, cov, holder)
-    part_a_random(tier, wd, agg, cov, holder)
+    only = os.environ.get("VERIF_C19_ONLY", "ab")      # development aid
+    if "a" in only:
+        part_a_replay(tier, wd, agg, cov, holder)
+        part_a_random(tier, wd, agg, cov, holder)
+    if "b" in only:
+        part_b(tier, wd, agg, cov)
     agg.report(rep)
     rc = rep.finish()
     ops_all = ["open", "close", "dup", "dup2", "pipe", "tmp", "read", "write", "lseek", "getfd", "setfd", "access",
@@ -336,7 +439,8 @@ def run(tier):
     vlib.write_evidence(PID, tier, {
         "states": cov["states"],
         "transitions": cov["transitions"],
-        "traces_validated_against_impl": cov["cases"] * 2 + cov.get("random", {}).get("records", 0),
+        "traces_validated_against_impl": cov["cases"] * 2 + cov.get("random", {}).get("records", 0)
+                                         + 2 * cov.get("scripts", {}).get("scripts", 0),
         "samples": cov["samples"],
         "evaluations": cov["cases"] * 2 + cov.get("random", {}).get("records", 0),
         "distinct_nontrivial": cov["cases"],
@@ -349,6 +453,8 @@ def run(tier):
         "model_calls_not_exercised": [o for o in ops_all if cov["per_op"].get(o, 0) == 0],
         "model_results_exercised": cov["per_result"],
         "random": cov.get("random", {}),
+        "scripts": cov.get("scripts", {}),
+        "script_samples": cov["script_samples"],
         "known_finding_hits": {fid: n for fid, (f, n) in rep.known_hits.items()},
     }, time.time() - t0, violations=len(rep.violations), assumptions=[
         "the Linux kernel of this machine implements POSIX for the modelled calls (it is one of the two systems under test)",
@@ -377,6 +483,21 @@ def replay(path):
             print(f"VIOLATION property={PID} replay={path}")
             return 1
         print(f"accepted ({n} records, {undef} without prediction)")
+        return 0
+    if rec.get("level") == "script":
+        src = os.path.join(wd, "one.ndjson")
+        with open(src, "w") as f:
+            f.write(json.dumps({"h": rec["steps"][:-1], "fan": [{"t": rec["steps"][-1], "p": rec["pred"]}],
+                                "tree": rec["tree"]}) + "\n")
+        out = os.path.join(wd, "one.rep")
+        vlib.run_harness(PKG, ["scripts", "--in", src, "--out", out])
+        bad = [v for v in vlib.read_ndjson(out) if v["kind"] == "deviation"]
+        for v in bad:
+            print(f"deviation: {v['dev']}\n  sim : {json.dumps(v['sim'])}\n  real: {json.dumps(v['real'])}")
+        if bad:
+            print(f"VIOLATION property={PID} replay={path}")
+            return 1
+        print("accepted")
         return 0
     print("unknown replay level")
     return 2
